@@ -3,7 +3,7 @@
     of the handler's blocking read calls (Model/Lifecycle.v). *)
 From Coq Require Import String Ascii List Bool ZArith NArith Arith.
 From Raven Require Import Base.GoStr Model.Lifecycle Model.LifecycleSrv Spec.Lifecycle
-  Model.LifecycleWrite Proof.Lifecycle Proof.LifecycleSrv Proof.LifecycleWrite.
+  Model.LifecycleWrite Model.LifecycleSaslLoop Proof.Lifecycle Proof.LifecycleSrv Proof.LifecycleWrite Proof.LifecycleSaslLoop.
 Import ListNotations.
 
 (** (a) IMAP, client gone. From EVERY state — IDLE included since fixes C20-1
@@ -162,6 +162,39 @@ Theorem c20_sasl_shutdown_ends_connection : forall (m : smode) (e : event),
 Proof. exact sasl_shutdown_ends_connection. Qed.
 Print Assumptions c20_sasl_shutdown_ends_connection.
 
+(** Shutdown while the client keeps SENDING (timed loop model, Model/LifecycleSaslLoop.v).
+    For every loop whose `continue` path does not re-arm the read deadline — the
+    tree's loop is one — after ANY history, once Shutdown has begun, whatever
+    lines the client sends (malformed, empty, over-long, unknown, well-formed)
+    at whatever intervals, the connection is alive for at most one read
+    deadline: no input extends the wait of Shutdown. *)
+Theorem c20_sasl_shutdown_wait_bounded : forall (c : loopcfg) (before after : list (N * str)),
+  rearm_malformed c = false ->
+  (alive (trun c true (final (trun c false t_init before)) after) <= read_timeout)%N.
+Proof. exact shutdown_wait_bounded. Qed.
+Print Assumptions c20_sasl_shutdown_wait_bounded.
+
+Theorem c20_sasl_shutdown_alive_bound : forall (c : loopcfg) (ls : list (N * str)) (s : tstate),
+  rearm_malformed c = false ->
+  (alive (trun c true s ls) <= (if t_done s then 0 else t_left s))%N.
+Proof. intros c ls s H. exact (shutdown_alive_bound c ls H s). Qed.
+Print Assumptions c20_sasl_shutdown_alive_bound.
+
+(** for a loop whose `continue` path passes the shutdown check as well
+    (fixes/C20-7): from every state, once shutdown has begun, the handler ends
+    after at most one further line, whatever the line is *)
+Theorem c20_sasl_strict_loop_one_line : forall (c : loopcfg) (s : tstate) (dt : N) (l : str),
+  check_malformed c = true -> t_done (final (tstep c true s dt l)) = true.
+Proof. exact strict_one_line. Qed.
+Print Assumptions c20_sasl_strict_loop_one_line.
+
+(** the timed loop is the handler model of Model/Lifecycle.v while the deadline does not fire *)
+Theorem c20_sasl_loop_agrees : forall (shut : bool) (s : tstate) (dt : N) (l : str) (o : bool),
+  t_done s = false -> (dt < t_left s)%N ->
+  t_done (final (tstep tree_loop shut s dt l)) = match fst (sstep shut SCmd (Data l o)) with SDone => true | SCmd => false end.
+Proof. exact tstep_agrees. Qed.
+Print Assumptions c20_sasl_loop_agrees.
+
 (** a second lmtp.Shutdown returns and changes nothing (fix C20-3); no history makes a service panic *)
 Theorem c20_lmtp_shutdown_idempotent : forall s : srv,
   panicked s = false -> chan_closed s = true -> sstep_srv SvcLMTP s Shutdown = (s, [OShutReturned]).
@@ -184,6 +217,17 @@ Proof. exact imap_idle_gone_ends. Qed.
 
 Example c20_old_idle_never_ended : forall es, no_data es = true -> fold_left old_idle_poll es true = true.
 Proof. exact old_idle_never_ended. Qed.
+
+(** the renewal moved to the top of the loop (seeded change C20-2): one-field
+    lines 29.999 s apart hold the connection, and Shutdown, for ever *)
+Example c20_seeded_loop_unbounded : forall n : nat,
+  final (trun seeded_loop true t_init (repeat (29999%N, ping) n)) = t_init /\
+  alive (trun seeded_loop true t_init (repeat (29999%N, ping) n)) = (N.of_nat n * 29999)%N.
+Proof. exact seeded_unbounded. Qed.
+
+Example c20_tree_loop_on_pings :
+  trun tree_loop true t_init [(29999%N, ping); (29999%N, ping); (29999%N, ping)] = (mk_t true 0, 30000%N, 0).
+Proof. exact tree_on_pings. Qed.
 
 Example c20_double_shutdown_returns :
   snd (srv_run SvcLMTP srv_init [Shutdown; Shutdown]) = [OShutReturned; OShutReturned].
